@@ -101,3 +101,32 @@ Fixpoint grun_obs (g : glue) (l : list (gop * gobs)) : list gobs :=
 
 Definition model_obs (c : case) : list gobs := match c with GCase f l => grun_obs (glue_init f) l end.
 Definition check_case (c : case) : bool := match c with GCase f l => grun (glue_init f) l end.
+
+(** histories through the glue, with the ghost log of what the TLS handler received per level *)
+Record grst := { gr_g : glue; gr_o0 : list Z; gr_o1 : list Z; gr_o2 : list Z }.
+Definition grst_init (fail : Z) : grst := {| gr_g := glue_init fail; gr_o0 := []; gr_o1 := []; gr_o2 := [] |}.
+
+Definition grstep (Sf : Z -> Z -> Z) (r : grst) (o : gop) : option grst :=
+  match o with
+  | GFrame l off n =>
+    let '(g', e, ms, bug) := ghandle Sf (gr_g r) l off n in
+    if bug then None else
+    match e with
+    | GNil =>
+      let d := List.concat ms in
+      Some (if l =? 0 then {| gr_g := g'; gr_o0 := gr_o0 r ++ d; gr_o1 := gr_o1 r; gr_o2 := gr_o2 r |}
+            else if l =? 1 then {| gr_g := g'; gr_o0 := gr_o0 r; gr_o1 := gr_o1 r ++ d; gr_o2 := gr_o2 r |}
+            else {| gr_g := g'; gr_o0 := gr_o0 r; gr_o1 := gr_o1 r; gr_o2 := gr_o2 r ++ d |})
+    | _ => None
+    end
+  | GDrop l =>
+    let '(g', e, bug) := gdrop Sf (gr_g r) l in
+    if bug then None else
+    match e with GNil => Some {| gr_g := g'; gr_o0 := gr_o0 r; gr_o1 := gr_o1 r; gr_o2 := gr_o2 r |} | _ => None end
+  end.
+Fixpoint grsrun (Sf : Z -> Z -> Z) (r : grst) (ops : list gop) : option grst :=
+  match ops with
+  | [] => Some r
+  | o :: t => match grstep Sf r o with Some r' => grsrun Sf r' t | None => None end
+  end.
+Definition gvalid (o : gop) : Prop := match o with GFrame _ off n => 0 <= off /\ 0 <= n | _ => True end.
